@@ -19,6 +19,7 @@ import json
 import math
 import os
 import struct
+import sys
 from fractions import Fraction
 
 from vlib import common as C
@@ -721,9 +722,34 @@ def shrink(exe, line, sig):
     return mk(groups)
 
 
+def regenerate(broken):
+    """lean/Vita/C08/GenStorage.lean from the clang AST of the current tree (cached by tree hash)"""
+    import hashlib
+    gen = os.path.join(C.LEAN, "Vita", "C08", "GenStorage.lean")
+    tool = os.path.join(C.ROOT, "tools", "translate_c08_storage.py")
+    tu = os.path.join(C.ROOT, "tools", "tu", "c08_storage_tu.cc")
+    key = C.repo_tree_hash(open(tool).read() + open(tu).read() + open(os.path.join(C.ROOT, "tools", "cxx2lean.py")).read())
+    stamp = os.path.join(C.BUILD, "c08_gen.stamp")
+    if os.path.exists(stamp) and os.path.exists(gen):
+        old = open(stamp).read().split("\n")
+        if len(old) == 2 and old[0] == key and old[1] == hashlib.sha256(open(gen, "rb").read()).hexdigest():
+            return
+    rc, so, se = C.sh([sys.executable, tool])
+    if rc != 0:
+        broken.append("the storage translator refuses the current source (the special member functions of "
+                      "reg_lambda_f_storage / a lambdify have a shape the lifetime model does not cover): " + se.strip()[-600:])
+        if os.path.exists(stamp):
+            os.remove(stamp)
+        return
+    os.makedirs(C.BUILD, exist_ok=True)
+    with open(stamp, "w") as f:
+        f.write(key + "\n" + hashlib.sha256(open(gen, "rb").read()).hexdigest())
+
+
 def run(chk, replay=None):
     rng = C.SplitMix(chk.seed)
     broken = []
+    regenerate(broken)
     ok, out = C.lake_build(["c08_driver"])
     drv_ok = ok
     if not ok:
